@@ -38,10 +38,14 @@ const c17MaxN = 12
 type pagerMarkup struct {
 	Sep, Open, Close, Cur string
 	Nav                   string // "", "Prev/Next", "Previous/Next"
+	// Teaser: a second, wordy anchor (more than 25 bytes of text) to the next page below the
+	// pager: "" none, "plain", or "banned" (its text contains one of the loosely matched words
+	// of the extraneous-link filter: f-all, rede-sign-ed)
+	Teaser string
 }
 
 func (m pagerMarkup) String() string {
-	return fmt.Sprintf("sep=%q wrap=%q cur=%q nav=%q", m.Sep, m.Open, m.Cur, m.Nav)
+	return fmt.Sprintf("sep=%q wrap=%q cur=%q nav=%q teaser=%q", m.Sep, m.Open, m.Cur, m.Nav, m.Teaser)
 }
 
 func c17Markups(all bool) []pagerMarkup {
@@ -62,7 +66,13 @@ func c17Markups(all bool) []pagerMarkup {
 					if !all && !(si == ci%3 && wi == (ci/3)%4 && ni == (ci+1)%3) {
 						continue
 					}
-					out = append(out, pagerMarkup{Sep: s, Open: w[0], Close: w[1], Cur: c, Nav: nv})
+					teasers := []string{"", "plain", "banned"}
+					if !all {
+						teasers = teasers[(ci+si)%3 : (ci+si)%3+1]
+					}
+					for _, ts := range teasers {
+						out = append(out, pagerMarkup{Sep: s, Open: w[0], Close: w[1], Cur: c, Nav: nv, Teaser: ts})
+					}
 				}
 			}
 		}
@@ -98,8 +108,22 @@ func c17Page(f urlFamily, bare bool, n, k int, m pagerMarkup) (pageURL, src stri
 		}
 	}
 	body := "<p>" + strings.Repeat("lorem ipsum dolor sit amet ", 16) + "</p>"
+	teaser := ""
+	if m.Teaser != "" && (k < n || k > 1) {
+		to, txt := k+1, "Continue reading: the fall of the Western empire"
+		if m.Teaser == "plain" {
+			txt = "Continue reading: the end of the Western empire"
+		}
+		if k == n || (k > 1 && (n+k)%2 == 0) {
+			to, txt = k-1, "Go back: how Augustus redesigned the Roman state"
+			if m.Teaser == "plain" {
+				txt = "Go back: how Augustus changed the Roman state"
+			}
+		}
+		teaser = fmt.Sprintf(`<p class="teaser"><a href="%s">%s</a></p>`, pagerLink(f, bare, to), txt)
+	}
 	src = "<html><head><title>A paginated article about things</title></head><body><h1>A paginated article</h1>" + body + body +
-		m.Open + before + strings.Join(items, m.Sep) + after + m.Close + "</body></html>"
+		m.Open + before + strings.Join(items, m.Sep) + after + m.Close + teaser + "</body></html>"
 	return pagerLink(f, bare, k), src
 }
 
